@@ -86,6 +86,21 @@ def decode_stub(I, f, locs, node, frame):
     return marker
 
 
+def install_decoder_stubs(prog, stub):
+    """a command class may get its unmarshall_datain from a descriptor or an assignment (a closure under another name): whatever
+    `Class.unmarshall_datain` evaluates to is the decoder, and is stubbed like a method of that name"""
+    memo = getattr(prog, "_decoder_stub_names", None)
+    if memo is None:
+        memo = prog._decoder_stub_names = []
+        for c in prog.command_classes():
+            v = prog.read_class_attr(c, "unmarshall_datain")
+            f = v.func if isinstance(v, BoundMethod) else v
+            if isinstance(f, FuncVal) and f.name != "unmarshall_datain":
+                memo.append(f.qualname)
+    for q in memo:
+        prog.I.stubs[q] = stub
+
+
 def eval_facade(prog, method, fspec, setname, kwmode, check_condition="fork", transport="sgio", sa=None, other_error="never",
                 after_all=False, history=(), positional=False):
     """after_all: the evaluated call is the last of a sequence on one facade -- first each (method, fspec, sa) of
@@ -98,6 +113,7 @@ def eval_facade(prog, method, fspec, setname, kwmode, check_condition="fork", tr
     enum = prog.module(ENUM_MOD).env[setname]
     si = StandIn(prog, check_condition=check_condition, other_sgio_error=other_error).install()
     I.stubs["*.unmarshall_datain"] = decode_stub
+    install_decoder_stubs(prog, decode_stub)
     out = []
     try:
         def thunk():
@@ -166,6 +182,8 @@ def eval_facade(prog, method, fspec, setname, kwmode, check_condition="fork", tr
     finally:
         si.remove()
         I.stubs.pop("*.unmarshall_datain", None)
+        for q_ in getattr(prog, "_decoder_stub_names", ()):
+            I.stubs.pop(q_, None)
     return out
 
 
